@@ -24,11 +24,17 @@ EXPLANATION = (
 
 def raw_float_ops(body):
     out = []
+    from . import c06 as _c06
+    dbg = _c06.debug_only_blocks(body)      # debug_assert!s: compiled out of release builds, they do not decide the order
     for bb, j, s in body.stmts():
+        if bb in dbg:
+            continue
         r = s["r"]
         if "bin" in r and r["bin"] in ("Eq", "Ne", "Lt", "Le", "Gt", "Ge") and (r.get("aty") or {}).get("prim") in ("f32", "f64"):
             out.append((s["ln"], f"{r['bin']} on {r['aty']['prim']}"))
     for bb, t in body.calls():
+        if bb in dbg:
+            continue
         f = t["call"]
         if (f.get("trait") in ("core::cmp::PartialEq", "core::cmp::PartialOrd")) and f.get("substs") and tystr(strip_refs(f["substs"][0])) in ("f32", "f64"):
             out.append((t["ln"], f"{f['def']} on {tystr(f['substs'][0])}"))
@@ -84,8 +90,10 @@ def run(ctx):
             # DoubleKey may delegate to <f64 as DoubleOps>::{eq,cmp,hash} (checked here as well), and both may share crate-private
             # helper functions: looked through
             b = inline.expand(c, b, depth=2, pred=lambda cb, nm=b.name: (cb.trait == DOPS and tystr(cb.self_ty or {}) == "f64" and cb.name == nm) or (cb.kind == "fn" and cb.d.get("vis") != "pub"))
-            wraps = [s for _, _, s in b.stmts() if s["r"].get("agg") == "adt" and s["r"]["adt"] == OF]
-            calls = [t for _, t in b.calls() if t["call"]["name"] == nm0 and t["call"].get("substs") and ty_adt(strip_refs(t["call"]["substs"][0])) == OF]
+            from . import c06 as _c06
+            dbg_ = _c06.debug_only_blocks(b)       # debug_assert!s restating the invariant do not count
+            wraps = [s for bb_, _, s in b.stmts() if bb_ not in dbg_ and s["r"].get("agg") == "adt" and s["r"]["adt"] == OF]
+            calls = [t for bb_, t in b.calls() if bb_ not in dbg_ and t["call"]["name"] == nm0 and t["call"].get("substs") and ty_adt(strip_refs(t["call"]["substs"][0])) == OF]
             need = 1 if nm0 == "hash" else 2
             ok = len(wraps) == need and len(calls) == 1
             canon.append((who, ok))
